@@ -216,6 +216,21 @@ void prop_sketch(const Case& cs) {
     check_interval(u, "hll union", u.get_estimate());
     hll_sketch r = u.get_result(t);
     check_interval(r, "hll union result", r.get_estimate());
+    // second level: the (out-of-order) result of the first union goes into a union of smaller or equal lg_max_k, as the first
+    // HLL-mode input (optionally behind a few direct items, so that the gadget is in LIST mode when it arrives)
+    {
+      uint8_t lg2 = static_cast<uint8_t>(std::max<int>(4, static_cast<int>(lg_k) - (cfg / 64) % 4));
+      hll_union u2(lg2);
+      if ((cfg / 256) & 1) for (uint64_t i = 0; i < 3; ++i) u2.update(base + i);
+      u2.update(r);
+      check_interval(u2, "hll second-level union", u2.get_estimate());
+      for (int tt = 0; tt < 3; ++tt) {
+        hll_sketch r2 = u2.get_result(static_cast<target_hll_type>(tt));
+        check_interval(r2, "hll second-level union result", r2.get_estimate());
+        VF_CHECK(r2.is_empty() == (n == 0 && !((cfg / 256) & 1)), "hll-second-level-empty", "second-level result is_empty " << r2.is_empty() << " for n " << n);
+      }
+      if (lg2 < lg_k) vf::label("hll-second-level-downsampled");
+    }
     for (uint8_t sd = 1; sd <= 3; ++sd) {
       double a = hll_sketch::get_rel_err(true, false, lg_k, sd), b = hll_sketch::get_rel_err(false, false, lg_k, sd);
       double c = hll_sketch::get_rel_err(true, true, lg_k, sd), d = hll_sketch::get_rel_err(false, true, lg_k, sd);
@@ -253,7 +268,7 @@ void prop_sketch(const Case& cs) {
 rc::Gen<Case> gen_sketch() {
   using namespace vf;
   auto nGen = rc::gen::weightedOneOf<int64_t>({{1, range(0, 3)}, {3, range(4, 300)}, {4, range(300, 20000)}, {1, range(20000, 399999)}});
-  return make_case({{"fam", range(0, 3)}, {"cfg", range(0, 255)}, {"n", nGen}, {"base", range(1, 1 << 30)}}, rc::gen::just(std::vector<Op>{}));
+  return make_case({{"fam", range(0, 3)}, {"cfg", range(0, 511)}, {"n", nGen}, {"base", range(1, 1 << 30)}}, rc::gen::just(std::vector<Op>{}));
 }
 
 }  // namespace
